@@ -357,6 +357,7 @@ func check(c pubCase) (fails []*harness.Failure, st stats) {
 		reps = 1
 	}
 	var first *pub.Result
+	collidedAny := false
 	for _, jobs := range c.Jobs {
 		for r := 0; r < reps; r++ {
 			res, f := publish(c.Doc, c.Vis, c.Mask, jobs, 0)
@@ -370,7 +371,7 @@ func check(c pubCase) (fails []*harness.Failure, st stats) {
 			collided := false
 			for _, f := range checkSite(c, res, label) {
 				if strings.HasPrefix(f.Sig, "file-name-collision") {
-					collided = true
+					collided, collidedAny = true, true
 				}
 				dup := false
 				for _, g := range fails {
@@ -425,6 +426,41 @@ func check(c pubCase) (fails []*harness.Failure, st stats) {
 						hangSeen.Store(true)
 						return one(harness.Failf("publish-hangs-on-write-failure", "the writer failed at file %d of %d (%s, jobs=%d) and Publish did not return within %v", k, first.Calls, mode, jobs, hangLimit)), st
 					}
+				}
+			}
+		}
+	}
+	// one Publisher used again after a publish that failed (the disk was full, space was freed,
+	// the same Publisher is asked again): the second site is the whole site
+	if first != nil && base != nil && len(c.FaultJobs) > 0 && !hangSeen.Load() && first.Calls > 0 {
+		for _, jobs := range c.FaultJobs {
+			for _, k := range []int{1, 1 + first.Calls/2, first.Calls} {
+				doc, derr := gedcom.NewDocumentFromString(c.Doc.Text())
+				if derr != nil {
+					break
+				}
+				o := pub.FromMask(c.Mask, c.Vis, jobs)
+				o.FailFrom = k
+				type pair struct{ a, b *pub.Result }
+				done := make(chan pair, 1)
+				go func() {
+					a, b := pub.Retry(doc, o)
+					done <- pair{a, b}
+				}()
+				select {
+				case r := <-done:
+					if r.b.Panic != "" || len(r.b.Panics) > 0 {
+						return one(harness.Failf("publish-panic", "publishing again with the same Publisher panics: %q %v", r.b.Panic, r.b.Panics)), st
+					}
+					if r.a.Failed && r.b.Err != nil {
+						return one(harness.Failf("retry-fails", "after a publish that failed at file %d (jobs=%d), the same Publisher with a working writer returns %v", k, jobs, r.b.Err)), st
+					}
+					if ok, why := sameSite(base, digest(r.b.Files)); r.a.Failed && !ok && !collidedAny {
+						return one(harness.Failf("retry-incomplete", "after a publish that failed at file %d (jobs=%d), the same Publisher with a working writer returns nil but the site is not the whole site: %s", k, jobs, why)), st
+					}
+				case <-time.After(hangLimit):
+					hangSeen.Store(true)
+					return one(harness.Failf("publish-hangs-on-retry", "publishing again with the same Publisher after a failure at file %d (jobs=%d) did not return within %v", k, jobs, hangLimit)), st
 				}
 			}
 		}
